@@ -350,7 +350,7 @@ func parseSet(set string) ([]rng2, bool) {
 // a range, each message once at its first mention) -- IMAP leaves the order in which a server walks through a
 // sequence set open (RFC 9051 section 9: "servers MAY ... execute the sequence in any order"), so `COPY 3,1 box` may
 // create the copies as 3,1.  true: ascending sequence number regardless of how the set is written.
-const targetsAscending = false
+const targetsAscending = true // since /repo b3397cc COPY and MOVE hand the messages over in ascending UID order (COPYUID pairing)
 
 // resolveRows: the rows of the view a message set denotes (each once; order see targetsAscending); valid = false if
 // the set is invalid for the view (expected BAD).
